@@ -89,9 +89,83 @@ func (e *Engine) observablesOf(fr *Frame, st *State) []NamedTerm {
 			}
 		}
 	}
+	// struct-valued parameters: their scalar fields
+	for i := 0; i < sig.Params().Len(); i++ {
+		p := sig.Params().At(i)
+		if v, ok := top.entry.vars[p]; ok && v.S.Kind == SData && !v.S.IsSlice() && !v.S.IsMap() {
+			for _, f := range v.S.Fields {
+				add(p.Name()+"."+f.Name, Acc(v, f.Name))
+			}
+		}
+	}
+	// current values of string/int locals of the verified function
+	type probe struct {
+		name string
+		t    *Term
+	}
+	var keys []probe
+	for v, t := range st.vars {
+		if v.Pkg() == nil || t == nil {
+			continue
+		}
+		if t.S == StrSort || t.S == IntSort || t.S == BoolSort {
+			if v.Pos() >= top.fn.Decl.Pos() && v.Pos() <= top.fn.Decl.End() {
+				nm := "local:" + v.Name()
+				add(nm, t)
+				if t.S == StrSort {
+					keys = append(keys, probe{nm, t})
+				}
+			}
+		}
+	}
+	for _, nt := range out {
+		if nt.T.S == StrSort && !strings.HasPrefix(nt.Name, "local:") && !strings.Contains(nt.Name, "[") && probeKeyRe.MatchString(nt.Name) {
+			keys = append(keys, probe{nt.Name, nt.T})
+		}
+	}
+	// map probes: for string-keyed map fields of the receiver (current state), membership and scalar fields at those keys
+	if r := sig.Recv(); r != nil {
+		if rv, ok := top.entry.vars[r]; ok {
+			if n := namedOf(r.Type()); n != nil {
+				if stt, ok := n.Underlying().(*types.Struct); ok {
+					owner := typeName(n)
+					for i := 0; i < stt.NumFields(); i++ {
+						f := stt.Field(i)
+						mt, isMap := f.Type().Underlying().(*types.Map)
+						if !isMap || e.sortOf(mt.Key()) != StrSort {
+							continue
+						}
+						key := e.fieldKey(owner, f)
+						h, ok := st.heap[key]
+						if !ok {
+							continue
+						}
+						m := Select(h, rv)
+						add(r.Name()+"."+f.Name()+"@here", m)
+						vs := m.S.Fields[0].S.V
+						for _, k := range keys {
+							pre := fmt.Sprintf("%s.%s@here[%s]", r.Name(), f.Name(), k.name)
+							out = append(out, NamedTerm{pre + ".in", Select(Acc(m, "dom"), k.t)})
+							el := Select(Acc(m, "val"), k.t)
+							if vs.Kind == SData {
+								for _, ff := range vs.Fields {
+									if ff.S == IntSort || ff.S == BoolSort || ff.S == StrSort {
+										out = append(out, NamedTerm{pre + "." + ff.Name, Acc(el, ff.Name)})
+									}
+								}
+							}
+						}
+					}
+				}
+			}
+		}
+	}
 	sort.Slice(out, func(i, j int) bool { return out[i].Name < out[j].Name })
 	return out
 }
+
+// string-valued observables used as map probe keys (addresses, names)
+var probeKeyRe = regexp.MustCompile(`(?i)address|replica$|replica@|name$|head|parent`)
 
 var valRe = regexp.MustCompile(`\(\s*(obs!\d+)\s+((?:\(-\s*\d+\))|-?\d+|true|false|Str!val!\d+)\s*\)`)
 
